@@ -45,7 +45,19 @@ void __ubsan_on_report(void) { g_err |= 4; }
 
 #include "helpers.inc"
 
-void DTOR_NAME(CAPSULE_T *cap) { (void)cap; g_dtor_calls++; }
+/* the library's destructor function: index 0 = storage owned by the library (nothing to do),
+   1 = heap block owned by the wrapper, 2 = std::string created by the wrapper (`new std::string`).
+   The release is REAL, so that a helper that touches the text after releasing it is caught by ASan. */
+void DTOR_NAME(CAPSULE_T *cap)
+{
+    g_dtor_calls++;
+    if (cap->idtor == 1) free(cap->addr);
+#ifdef __cplusplus
+    else if (cap->idtor == 2) delete (std::string *) cap->addr;
+#endif
+    cap->addr = NULL;
+    cap->idtor = 0;
+}
 
 #include "stmts.inc"
 
@@ -185,6 +197,24 @@ int main(void)
             box_done(&c); box_done(&d);
             strcpy(out, "ok "); put_bytes(out, (unsigned char *) d.p, d.cap, 0);
             box_free(&c); box_free(&d);
+        } else if (strcmp(tok[0], "copystro") == 0 && nt == 5) {
+            /* as copystr, but the text lives in a heap block owned by the capsule (idtor 1) */
+            Box c = box_parse(tok[1]);
+            Box d = box_parse(tok[3]);
+            ARRAY_T ctx;
+            char *blk = (char *) malloc(c.cap);
+            memcpy(blk, c.p, c.cap);
+            memset(&ctx, 0, sizeof ctx);
+            ctx.cxx.addr = blk;
+            ctx.cxx.idtor = 1;
+            ctx.addr.ccharp = blk;
+            ctx.elem_len = (size_t) atoi(tok[2]);
+            g_dtor_calls = 0;
+            COPY_STRING(&ctx, d.p, (size_t) atoi(tok[4]));
+            if (g_dtor_calls != 1 || ctx.cxx.addr != NULL) g_err |= 16;
+            box_done(&c); box_done(&d);
+            strcpy(out, "ok "); put_bytes(out, (unsigned char *) d.p, d.cap, 0);
+            box_free(&c); box_free(&d);
         } else if (strcmp(tok[0], "allocchar") == 0 && nt == 2) {
             /* statement lines of c_char_*_result_buf_allocatable, then the two
                Fortran statements allocate(len=elem_len) ; call copy_string */
@@ -265,6 +295,24 @@ int main(void)
             box_free(&s);
         }
 #ifdef __cplusplus
+        else if (strcmp(tok[0], "oflow") == 0 && nt == 3) {
+            /* owned allocatable result: statement lines of c_string_scalar_result_buf_allocatable
+               (new std::string, ShroudStrToArray with a destructor index), then the Fortran side:
+               allocate(character(len=elem_len)) ; call copy_string_and_free */
+            Box c = box_parse(tok[2]);
+            ARRAY_T ctx;
+            memset(&ctx, 0, sizeof ctx);
+            oflow_string_scalar_result_buf_allocatable(&ctx, c.p, (int) c.cap);
+            size_t n = ctx.elem_len;
+            char *f = (char *) malloc(n);
+            g_dtor_calls = 0;
+            COPY_STRING(&ctx, f, n);
+            if (g_dtor_calls != 1 || ctx.cxx.addr != NULL) g_err |= 16;
+            box_done(&c);
+            strcpy(out, "ok f="); put_bytes(out, (unsigned char *) f, n, 1);
+            free(f);
+            box_free(&c);
+        }
         else if (strcmp(tok[0], "vflow") == 0 && nt == 6) {
             /* vflow name <t> <size> <len> <s1;s2;..|~> : CHARACTER(len) t(size), library stores the strings */
             Box t = box_parse(tok[2]);
@@ -306,13 +354,15 @@ int main(void)
         else if ((strcmp(tok[0], "strtoarray") == 0 || strcmp(tok[0], "allocstring") == 0) && nt == 2) {
             Box c = box_parse(tok[1]);
             {
-                std::string str(c.p, c.cap);
+                /* std::string returned by value: created with `new`, owned by the capsule (idtor 2) */
+                std::string *strp = new std::string(c.p, c.cap);
                 ARRAY_T ctx;
                 memset(&ctx, 0, sizeof ctx);
-                ShroudStrToArray(&ctx, &str, 0);
+                ShroudStrToArray(&ctx, strp, tok[0][0] == 's' ? 0 : 2);
                 if (tok[0][0] == 's') {
                     sprintf(out, "ok %s %d", ctx.addr.ccharp == NULL ? "null" : "ptr", (int) ctx.elem_len);
-                    if (ctx.addr.ccharp != NULL && ctx.addr.ccharp != str.data()) g_err |= 32;
+                    if (ctx.addr.ccharp != NULL && ctx.addr.ccharp != strp->data()) g_err |= 32;
+                    delete strp;
                 } else {
                     size_t n = ctx.elem_len;
                     char *f = (char *) malloc(n);
